@@ -35,7 +35,7 @@ package ed25519
 // 19 byte strings 0xed..0xff || 0xff^30 || 0x7f (sign bit ignored).
 //@ func isCanonical
 //@   property C16
-//@   loop 0: invariant i >= 0 && i <= 30 && ((c == 0) == ((s[31] & 127) == 127 && forall k int :: i < k && k <= 30 ==> s[k] == 255))
+//@   loop 0: invariant i >= 0 && i <= 30 && c <= 255 && ((c == 0) == ((s[31] & 127) == 127 && forall k int :: i < k && k <= 30 ==> s[k] == 255))
 //@   ensures [spec] (result == 0) == ((s[31] & 127) == 127 && (forall k int :: 1 <= k && k <= 30 ==> s[k] == 255) && s[0] >= 237)
 //@   ensures [bit]  result == 0 || result == 1
 //@   modifies nothing
